@@ -421,6 +421,44 @@ class Escape:
                                 changed = True
         self.rounds = rounds
 
+    # ------------------------------------------------------------ per-site upward query
+    def caught_locally(self, exc: str, node: ast.AST, f: Func) -> Optional[str]:
+        """Handler of f that subsumes `exc` raised at `node` (text), or None."""
+        for t in self.protecting(node, f):
+            outcome, h = self.handler_outcome(exc, t, f)
+            if outcome == 'caught':
+                assert h is not None
+                return f'except {norm(h.type) if h.type is not None else ""} in {f.qn} ({f.mod.relpath}:{h.lineno})'
+        return None
+
+    def reaches_entry(self, exc: str, node: ast.AST, f: Func, entries: Iterable[str]) -> Tuple[Optional[List[str]], List[str]]:
+        """
+        Can an exception of class `exc` raised at `node` inside f propagate up to one of the entry functions?
+        @return: (path or None, handlers that stop it on the explored paths)
+        """
+        entries = set(entries)
+        stops: List[str] = []
+        h = self.caught_locally(exc, node, f)
+        if h is not None:
+            return None, [h]
+        seen: Set[str] = set()
+        todo: List[Tuple[Func, List[str]]] = [(f, [f'{f.qn} ({f.mod.relpath}:{getattr(node, "lineno", 0)})'])]
+        while todo:
+            g, path = todo.pop(0)
+            if g.qn in seen:
+                continue
+            seen.add(g.qn)
+            if g.qn in entries:
+                return path, stops
+            for s in self.cg.callers.get(g.qn, []):
+                h = self.caught_locally(exc, s.node, s.func)
+                if h is not None:
+                    if h not in stops:
+                        stops.append(h)
+                    continue
+                todo.append((s.func, path + [f'<- {s.func.qn} ({s.loc})']))
+        return None, stops
+
     # ------------------------------------------------------------ queries
     def path(self, fqn: str, key: Tuple[str, int]) -> List[str]:
         """Call path from function fqn down to the origin of the escaping exception."""
